@@ -43,20 +43,24 @@ func vhC08Table() *NamespaceTable {
 	return &nt
 }
 
-// vhC08Step is a positive step whose varint is 1 byte (class 0), 9 bytes
-// (class 1) or 10 bytes (class 2): 6 free low bits on a fixed base.
-func vhC08Step(class int) uint64 {
-	d := vU64("d")
-	low := d & 63
+// vhC08Value is the i-th value of a group, given the previous one: class 0 is
+// a small step (1 varint byte), class 1 puts the value at (i+1)*2^56 plus 6
+// free low bits (a step of 8 or 9 varint bytes; values are written as bit
+// fields rather than sums so that comparisons stay cheap for the solver),
+// class 2 (first of a group only) sets bit 63 (10 bytes).
+func vhC08Value(i int, prev uint64, class int) uint64 {
+	low := vU64("d") & 63
 	switch class {
 	case 0:
-		vAssume(d == low+1)
+		if i == 0 {
+			return low
+		}
+		return prev + 1 + low
 	case 1:
-		vAssume(d == 1<<56|low)
+		return uint64(i+1)<<56 | low
 	default:
-		vAssume(d == 1<<63|low)
+		return 1<<63 | low
 	}
-	return d
 }
 
 type vhC08List struct {
@@ -178,12 +182,7 @@ func vhC08SmallLists(advance bool) {
 			if i == 0 && vTier() == 1 && vBool("huge") {
 				class = 2
 			}
-			d := vhC08Step(class)
-			if i == 0 {
-				v = d - 1
-			} else {
-				v = v + d
-			}
+			v = vhC08Value(i, v, class)
 			l.ids = append(l.ids, b6.FeatureID{Type: grp.t, Namespace: grp.ns, Value: v})
 		}
 		_ = g
@@ -222,19 +221,13 @@ func vhC08Blocks(advance bool) {
 		if i < k {
 			class = 1
 		}
-		d := vhC08Step(class)
-		if i == 0 {
-			v = d - 1
-		} else {
-			v = v + d
-		}
+		v = vhC08Value(i, v, class)
 		l.ids = append(l.ids, b6.FeatureID{Type: vhC08Groups[0].t, Namespace: vhC08Groups[0].ns, Value: v})
 	}
 	n1 := vChoice("n1", 2+vTier())
 	v = 0
 	for i := 0; i < n1; i++ {
-		d := vhC08Step(0)
-		v = v + d
+		v = vhC08Value(i, v, 0)
 		l.ids = append(l.ids, b6.FeatureID{Type: vhC08Groups[2].t, Namespace: vhC08Groups[2].ns, Value: v})
 	}
 	buf := l.encode(nt)
@@ -257,12 +250,7 @@ func VH_C08_AfterFailedAdvance() {
 		if i < k {
 			class = 1
 		}
-		d := vhC08Step(class)
-		if i == 0 {
-			v = d - 1
-		} else {
-			v = v + d
-		}
+		v = vhC08Value(i, v, class)
 		l.ids = append(l.ids, b6.FeatureID{Type: vhC08Groups[0].t, Namespace: vhC08Groups[0].ns, Value: v})
 	}
 	buf := l.encode(nt)
